@@ -854,6 +854,11 @@ bool BarnettSmartVTMF_dlog::OR_Verify
 		// check the size of $r_1$ and $r_2$
 		if ((mpz_cmpabs(r_1, q) >= 0L) || (mpz_cmpabs(r_2, q) >= 0L))
 			throw false;
+
+		// check the range of $c_1$ and $c_2$
+		if ((mpz_sgn(c_1) < 0) || (mpz_cmp(c_1, q) >= 0) ||
+			(mpz_sgn(c_2) < 0) || (mpz_cmp(c_2, q) >= 0))
+				throw false;
 		
 		// verify ($y_1 = g_1^\alpha \vee y_2 = g_2^\beta$) [CaS97]
 		mpz_powm(t_1, y_1, c_1, p);
